@@ -25,6 +25,12 @@
                                           `XMLSchemaBase._validate_references` (schemas.py:1410-1414),
                                           which still indexes `identities[self.refer]` directly: b32146f
                                           did NOT touch that path and nothing here speaks about it.
+       `setCtx` / `nsWalk` / `nsAt`       the namespace map `collect_key_fields` reads (§2b): the stack of
+                                          xmlns contexts of namespaces.py:193-236 driven by the call sites
+                                          groups.py:1008, elements.py:645, 833 — QName fields are resolved
+                                          with the map held at the collect of the SELECTED node (`codeConv`;
+                                          `fscope` = the repaired variant, finding C08-F8)
+    S  `Node.scopes` / `specConv`         declarations in scope of the element that carries the value
     S  `UniqueOk` / `KeyOk` / `KeyrefOk`  the XSD reading (qualified node sets), Prop-valued
     O  `specClauses`                      executable evaluation of S on a document, scope by scope
 -/
